@@ -74,6 +74,7 @@ mapscripts M {
 		@19@, @20@ {
 			h2
 		}
+		VAR_Q + @24@, 2 * @25@: S
 	]
 }
 
@@ -83,10 +84,10 @@ mart Mt {
 }
 `
 
-const c13Sites = 24
+const c13Sites = 26
 
 // sites where a value with parentheses cannot be written out literally
-var c13NoParens = map[int]bool{21: true, 19: true, 20: true, 2: true, 3: true, 4: true, 5: true, 6: true, 7: true, 9: true, 10: true, 12: true, 14: true, 15: true, 16: true, 18: true}
+var c13NoParens = map[int]bool{24: true, 25: true, 21: true, 19: true, 20: true, 2: true, 3: true, 4: true, 5: true, 6: true, 7: true, 9: true, 10: true, 12: true, 14: true, 15: true, 16: true, 18: true}
 
 func c13Fill(vals map[int]string) string {
 	s := c13Template
@@ -247,5 +248,5 @@ func runC13(tier string) int {
 	r.Assume("values with parentheses are only used at sites where nested parentheses can be written out literally (command arguments, value(...))",
 		"const lines are replaced by blank lines so that line markers stay comparable")
 	return r.Finish(r.Get("evaluations"), r.Get("nontrivial"),
-		"11 definition sets (single token, multi-token, parenthesised, const from const two levels deep, hex, negative, multi-byte identifier) x every single use site, every pair and triple (thorough: quadruple) and all 24 documented use sites (three of them inside a larger expression) at once (command argument incl. nested, flag/var/defeated operands, comparison values incl. value(), switch operand and case value, AutoVar argument and comparison, goto target, map-script table var/value and inline body, mart item) + 8 non-positions (command name, movement step, label, moves() step, text content, script/text/mapscripts names, raw) + use before definition + redefinition; outputs compared byte for byte with line markers on, optimize on/off; non-trivial = multi-token or chained definition")
+		"11 definition sets (single token, multi-token, parenthesised, const from const two levels deep, hex, negative, multi-byte identifier) x every single use site, every pair and triple (thorough: quadruple) and all 26 documented use sites (five of them inside a larger expression) at once (command argument incl. nested, flag/var/defeated operands, comparison values incl. value(), switch operand and case value, AutoVar argument and comparison, goto target, map-script table var/value and inline body, mart item) + 8 non-positions (command name, movement step, label, moves() step, text content, script/text/mapscripts names, raw) + use before definition + redefinition; outputs compared byte for byte with line markers on, optimize on/off; non-trivial = multi-token or chained definition")
 }
